@@ -417,8 +417,63 @@ def run_ledger_case(ctx, rng, n, mon):
             return
 
 
+def run_same_text_case(ctx, rng, n, mon):
+    """Two IN sub-selects with the very same text in one statement that do not mean the same thing: positional placeholders
+    bound to different values, or sub-selects without a FROM clause at different nesting depths (each reads the table of
+    its own enclosing SELECT). Oracle: the reference model."""
+    from ..ir import T_INT as I
+    t = gen.gen_table(rng, 't', max_rows=ctx.pick(8, 20))
+    tables = {'t': t}
+    conn = engine.connection([t])
+    col = rng.choice(['i', 'j'])
+    other = 'j' if col == 'i' else 'i'
+
+    def sub(bound):
+        cond = ir.bin_(rng_op, ir.col(other, I), bound, T_BOOL)
+        return ir.subq(ir.Query(targets=[ir.Target(ir.col(col, I))], table=sub_table, where=cond))
+    rng_op = rng.choice(['gt', 'lt', 'ne'])
+    kind = rng.choice(['params', 'params', 'depth'])
+    if kind == 'params':
+        sub_table = rng.choice(['t', None])
+        v1, v2 = rng.sample([0, 1, 2, 3, 7, -1], 2)
+        a = ir.bin_('in', ir.col(col, I), sub(ir.param(v1, type=I)), T_BOOL)
+        b = ir.bin_(rng.choice(['in', 'notin']), ir.col(col, I), sub(ir.param(v2, type=I)), T_BOOL)
+        if rng.random() < 0.5:
+            q = ir.Query(targets=[ir.Target(ir.col('k', I)), ir.Target(a, 'a'), ir.Target(b, 'b')], table='t')
+        else:
+            q = ir.Query(targets=[ir.Target(ir.col('k', I))], table='t', where=ir.or_(a, b) if rng.random() < 0.5 else ir.and_(a, b))
+    else:
+        sub_table = None
+        v = rng.choice([0, 1, 2])
+        inner = ir.Query(targets=[ir.Target(ir.col('k', I)), ir.Target(ir.col('i', I)), ir.Target(ir.col('j', I))], table='t',
+                         where=ir.and_(ir.bin_('in', ir.col(col, I), sub(ir.lit(v, I)), T_BOOL), ir.bin_('lt', ir.col('k', I), ir.lit(rng.choice([3, 5, 8]), I), T_BOOL)))
+        q = ir.Query(targets=[ir.Target(ir.col('k', I))], subquery=inner, where=ir.bin_(rng.choice(['in', 'notin']), ir.col(col, I), sub(ir.lit(v, I)), T_BOOL))
+    text = ir.to_text(q)
+    params = [p.value for p in q.params()] or None
+    case = {'replay': ['same-text', n], 'statement': text, 'params': repr(params), 'columns': t.columns, 'rows': show_rows(t.rows, 40)}
+    try:
+        _, _, rows = engine.run(conn, text, params)
+    except Exception as exc:  # noqa: BLE001
+        ctx.violation(f'c08.in_subquery_raised.{monitors.classify_exception(exc)}', f'{text} {params}: {type(exc).__name__}: {exc}', case)
+        return
+    try:
+        _, _, mrows = model.run_query(q, tables)
+    except Exception:  # noqa: BLE001
+        ctx.count('skipped.model_raises')
+        return
+    ctx.count(f'obs.same_text_subqueries.{kind}')
+    ctx.case((text, repr(params), gen.table_digest(t)), len(t.rows) >= 2)
+    if not same_rows(rows, mrows):
+        d = first_row_diff(rows, mrows)
+        ctx.violation('c08.same_text_subqueries', f'{text} {params}: row {d[0]} engine={show(d[1])} model={show(d[2])} (two sub-selects with the same text, different meaning)', case)
+
+
 def run(ctx):
     mon = monitors.install()
+    for n in range(ctx.pick(60, 1500)):
+        if ctx.out_of_time():
+            break
+        run_same_text_case(ctx, ctx.rng('same-text', n), n, mon)
     for n in range(ctx.pick(12, 200)):
         if ctx.out_of_time():
             break
@@ -436,7 +491,7 @@ def run(ctx):
 def replay(ctx, case):
     mon = monitors.install()
     part, n = case['replay']
-    {'from': run_from_case, 'in': run_in_case, 'ledger': run_ledger_case}[part](ctx, ctx.rng(part, n), n, mon)
+    {'from': run_from_case, 'in': run_in_case, 'ledger': run_ledger_case, 'same-text': run_same_text_case}[part](ctx, ctx.rng(part, n), n, mon)
 
 
 def finalize(merged):
@@ -448,6 +503,8 @@ def finalize(merged):
         reasons.append('no IN-sub-query case compared')
     if c.get('obs.ledger_period_subqueries', 0) == 0 or c.get('obs.ledger_period_from_subqueries', 0) == 0:
         reasons.append('no ledger sub-query with period clauses compared')
+    if c.get('obs.same_text_subqueries.params', 0) == 0 or c.get('obs.same_text_subqueries.depth', 0) == 0:
+        reasons.append('no statement with two same-text sub-selects compared')
     if c.get('obs.star_cases', 0) == 0:
         reasons.append('no SELECT * FROM (q) case')
     if c.get('obs.in_subquery_with_limit', 0) == 0:
